@@ -164,6 +164,14 @@ def render_expr(e, sp, min_prec):
             if sp.std:
                 return "true" if v else "false"
             return sp.rng.choice(["true", "True"] if v else ["false", "False"])
+        if isinstance(v, int) and abs(v) >= 10 and v % 10 == 0:
+            # RFC 9535 number = int [frac] [exp]: an integer may be written with an exponent (read as the nearest double)
+            fl = repr(float(v))
+            if int(float(v)) == v and sp.rng.random() < getattr(sp, "exp_ints", 0.5):
+                if "e" in fl and "." not in fl:
+                    return sp.rng.choice([fl, fl.replace("e+", "e"), fl.replace("e", "E")])
+                t = str(abs(v)).rstrip("0")
+                return ("-" if v < 0 else "") + t + sp.rng.choice(["e", "E", "e+"]) + str(len(str(abs(v))) - len(t))
         if isinstance(v, (int, float)):
             return render_num(v)
         return sp.string(v)
